@@ -69,6 +69,7 @@ def check(ctx) -> None:
     r176(ctx)
     r177(ctx)
     r178(ctx)
+    r179(ctx)
 
 
 def r171(ctx) -> None:
@@ -421,3 +422,42 @@ def r178(ctx) -> None:
             'in new/ is written to new/ again, so the next read-write '
             'SELECT claims it — \\Recent is carried over by COPY and '
             'announced to two sessions')
+
+
+def r179(ctx) -> None:
+    R = ctx.rule('R17.9', 'maildir: a message is claimed only by the session '
+                 'whose rename succeeded', 1)
+    md = ctx.proj.cls(MAILDIR, 'Maildir')
+    f = md.own_method('claim_new')
+    if f is None:
+        raise AnchorError('Maildir.claim_new vanished')
+    cfg = cfg_of(f)
+    ren = cfg.find(lambda n: any(call_name(c) == 'rename'
+                                 for c in n.calls()))
+    ys = cfg.find(lambda n: n.kind == 'stmt' and any(
+        isinstance(x, (ast.Yield, ast.YieldFrom)) for x in ast.walk(n.stmt)))
+    if not ren or not ys:
+        raise AnchorError('claim_new: rename / yield not found')
+    # a rename whose failure is swallowed by contextlib.suppress
+    supp = [w for r in ren for w in enclosing(f.node, r.stmt, (ast.With,))
+            if any(isinstance(it.context_expr, ast.Call) and call_name(
+                it.context_expr) == 'suppress' for it in w.items)]
+    # a yield reachable from the rename's exception edge (through a handler
+    # that falls through)
+    exc_first = [m for r in ren for m, lab in r.succ if lab == 'e']
+    from_fail = cfg.reach(exc_first, labels=NORMAL, include_starts=True) \
+        if exc_first else set()
+    heads = {n for n in cfg.nodes if isinstance(n.stmt, (ast.For, ast.While))}
+    # stop at the loop head: the next iteration is a different file
+    from_fail_iter = cfg.reach(exc_first, avoid=list(heads), labels=NORMAL,
+                               include_starts=True) if exc_first else set()
+    bad = [y.lineno for y in ys if y in from_fail_iter
+           or not cfg.dominated_by(y, ren, labels=NORMAL)]
+    R.check(not supp and not bad, f, f.node,
+            'claim_new yields a key only after os.rename(new -> cur) '
+            'succeeded',
+            'a key is yielded although the rename failed (handler falls '
+            'through / contextlib.suppress): the rename is the only thing '
+            'that makes the claim exclusive across sessions (each '
+            'connection has its own MailboxSet and lock), so two racing '
+            'read-write SELECTs both announce the same message as \\Recent')
